@@ -322,6 +322,11 @@ impl Fiber {
     waiter
   }
 
+  /// Is this fiber currently selecting the catch clause for an error
+  pub fn is_unwinding(&self) -> bool {
+    self.state == FiberState::Unwinding
+  }
+
   /// When an error occurs while handling an exception as in
   /// there is an error with the handler itself we need to
   /// readjust the backtrace to point back to the current
